@@ -326,9 +326,15 @@ class Live:
     def write(self, rel, content):
         p = os.path.join(self.src, rel)
         os.makedirs(os.path.dirname(p), exist_ok=True)
+        new = not os.path.lexists(p)
         with open(p, 'w') as f:
             f.write(content)
         proj.bump(p, self.bld)
+        if new:
+            # a new entry changes its directory's time stamp too - at the instant of creation,
+            # which the coarse kernel clock may put in the same tick as the last build product:
+            # the discipline of Appendix C.2 (strictly newer) holds for the directory as well
+            proj.bump(os.path.dirname(p), self.bld)
         return p
 
     def touch(self, rel):
